@@ -52,6 +52,51 @@ CHECKS.update({
     ),
 })
 
+CHECKS.update({
+    "C01": dict(
+        technique="Lean 4 proof by mutual induction on fuel over a model of create_node and the deciders (all five decider kinds, all sources), corollaries for GE/SGE/dSGE mapping, tree mutation/crossover and arbitrary operation sequences + differential correspondence (model reproduces the implementation's programs draw by draw)",
+        text="Theorems (Props/C01.lean, 13): every value createNode returns is well-typed for its type (refinements included) for every decider, context, sibling values, random source and genotype, under the decidable grammar well-formedness grammarWF; mapGE/mapSGE/mapDSGE, treeMutate/treeCrossover children and every program ever in the pool of an arbitrary operation sequence are well-typed; a foreign / partially built value is never well-typed. Tied to the code by level-A agreement of model and implementation on scripted draws for all four tree deciders and the GE/SGE/dSGE mappings, and by the Lean well-typedness predicate evaluated on every implementation output incl. the stack representation.",
+        note="The stack machine (create_tree_using_stacks) is NOT modelled: its outputs are checked by the Lean predicate only (structure; its refined fields are C02's open finding). grammarWF excludes grammars with an abstract class lacking productions (two open findings). Floats are not modelled. Trusted: Lean kernel + standard axioms; model validated on explored inputs only.",
+        design="5/C01",
+    ),
+    "C02": dict(
+        technique="Lean 4 proof that every refinement's generated value satisfies its documented predicate and its own validate (per refinement, incl. dependent ones resolved against the actual siblings), lifted to whole programs through the well-typedness theorem + exhaustive correspondence over parameter boxes and ALL draws",
+        text="Theorems (Props/C02.lean, 11): createNode on Annotated[T, mh] returns a value satisfying mh against the actual sibling values, at every position; every refined field of every well-typed program satisfies its refinement against its earlier siblings; list elements and union members inherit it; validate accepts everything generate produces (IntervalRange as repaired); witnesses show where validate and the documented predicate differ. Exhaustive boxes: IntRange, IntList, VarRange, ListSizeBetween, StringSizeBetween, IntervalRange x all draws.",
+        note="Float refinements checked on the Python side only; WeightedStringHandler via C18's weighted choice; Dependent.validate is NotImplemented in the library (harness evaluates dependents itself); the stack representation violates refinements (open finding). Trusted: Lean kernel + standard axioms.",
+        design="5/C02",
+    ),
+    "C03": dict(
+        technique="Lean 4 proof by mutual induction on fuel: budget invariant ctx.depth + dist(ty) <= max_depth implies ctx.depth + depth(v) <= max_depth for grow/full/PI-grow/dSGE; closure under mutation/crossover sequences; candidate lists never empty on a fixpoint table + differential correspondence for every limit from min-1 to min+4",
+        text="Theorems (Props/C03.lean, 27): depth-limited creation, GE/SGE/dSGE mapping and every program reachable by any sequence of mutations and crossovers stays within the limit (under the decidable distConsistent, implied by the analysis being a fixpoint: C03_fixpoint_hypotheses + C05); limits below the grammar minimum are rejected before any draw; under the invariant the deciders' candidate lists are never empty (no AssertionError midway) for grammars without SynthesisException-raising dependent refinements; C03_retry_witness exhibits the remaining failure (open finding).",
+        note="Termination for sufficient fuel is not proved (partial: 'completes' is established by the correspondence runs, which demand success at every feasible limit). max_depth < 1000000 required (a class with only an unproductive list field). Trusted: Lean kernel + standard axioms.",
+        design="5/C03",
+    ),
+    "C05": dict(
+        technique="Lean 4 proof about the model of register_type / preprocess: the loop always converges to a solution of the minimum-depth equations, the solution is unique, bounded below and attained by derivations; recursion = cycle in the production graph + differential correspondence on generated hierarchies and the shipped geml grammars, with the fixpoint predicate evaluated on the implementation's own table",
+        text="Theorems (Props/C05.lean, 25): productions of an abstract class are exactly its registered direct subclasses; the distance iteration converges within #symbols rounds to a fixpoint (no fuel hypothesis); every finite reported distance is attained by a derivable program; no program without empty lists is shallower (exactness, both depth modes); fixpoint uniqueness, hence independence of the symbol set's iteration order; recursive symbols = symbols on a cycle; reachable classes = Reach* from the start. C05_dist_sound_witness shows exactness fails with possibly-empty lists (open finding).",
+        note="Closure of the key set under successors is a decidable hypothesis evaluated per grammar. 'usable grammar generates the same programs' is checked by correspondence only. typing introspection trusted. Trusted: Lean kernel + standard axioms.",
+        design="5/C05",
+    ),
+    "C06": dict(
+        technique="Lean 4 proof of locus-preservation / single-gene locality for the GE, stack, SGE and dSGE genotype operators for all lengths and cut points; tree crossover: partial theorem + machine-checked counterexample + differential correspondence",
+        text="Theorems (Props/C06.lean, 11): one-point crossover children have every gene from a parent at the same locus for EVERY cut point (also beyond the end, as the stack representation cuts); point mutation changes at most one gene and preserves shape; per-key versions for SGE / dSGE. Tree crossover as the code is: children are recombinations only when a donor is found (C06_tree_crossover_partial); C06_tree_crossover_witness proves the general statement false for the pinned code (open finding, reconfirmed on the implementation every run).",
+        note="Trusted: Lean kernel + standard axioms; model validated on explored inputs only.",
+        design="5/C06",
+    ),
+    "C07": dict(
+        technique="Lean 4 proof: the genotype-backed source never changes the genotype; dSGE extension is prefix-monotone and re-mapping the extended genotype is a fixed point that reads nothing from the shared stream (two-run simulation lifted through create_node) + differential correspondence with a counting wrapper around the shared source",
+        text="Theorems (Props/C07.lean, 7): GE/SGE mapping is a function of (grammar, decider, genotype); along any mapping the gene source stays the same genotype; dynamic SGE only extends gene lists (prefix order) and mapping the extended genotype again, with ANY shared stream, returns the same program, leaves the genotype unchanged and does not advance the shared stream (also when the first mapping failed).",
+        note="The stack machine is not modelled (purity checked on the implementation only). Trusted: Lean kernel + standard axioms.",
+        design="5/C07",
+    ),
+    "C11": dict(
+        technique="Lean 4 proof that the recursive labelling fold equals an independent flat-traversal specification on every node (incl. inside lists and tuples), and that memoised relabelling over correctly cached subtrees stays correct + differential correspondence on every node of created and varied programs",
+        text="Theorems (Props/C11.lean, 22): node count, distance to the deepest terminal, weighted size and per-type occurrence counts computed by relabel equal the flat specification for every sub-value of every well-typed program of every analysed grammar; dtt vs depth inequalities; memoisation: with correct caches the memoised algorithm returns the specification and keeps all caches correct through any sequence of constructor applications (mutation / crossover), and a stale cache provably yields a wrong label (witness).",
+        note="Tree-depth mode only (expansion-depthing adjustments not modelled). Trusted: Lean kernel + standard axioms.",
+        design="5/C11",
+    ),
+})
+
 NOT_YET = {}
 
 
